@@ -55,15 +55,19 @@ def rewrite_event(ctx, py: PyRepo):
                     and any(isinstance(x, ast.Raise) for x in st.body):
                 guard_line = st.lineno
         effects = {}
+        all_effects: dict[str, list] = {'claim': [], 'proof': [], 'config': []}
         for e in p.events:
             if e.kind == 'ecall' and e.value[1] == ('attr', SELF, 'add_claim'):
                 effects['claim'] = (e.node.lineno, e.value)
+                all_effects['claim'].append(e.node.lineno)
             if e.kind == 'ecall' and e.value[1] == ('attr', SELF, 'add_proof_expression'):
                 effects['proof'] = (e.node.lineno, e.value)
+                all_effects['proof'].append(e.node.lineno)
             if e.kind == 'setattr' and e.value[0] == SELF and e.value[1] == '_curr_config':
                 effects['config'] = (e.node.lineno, e.value)
+                all_effects['config'].append(e.node.lineno)
         for name in ('claim', 'proof', 'config'):
-            ok = name in effects and guard_line is not None and effects[name][0] > guard_line
+            ok = name in effects and guard_line is not None and all(ln > guard_line for ln in all_effects[name])
             ctx.ob('rewrite-typestate', f'{name}-after-guard/path{i}', ok,
                    f'the {name} registration / update happens before (or without) the check that the step starts at the current configuration',
                    where, facts={'guard line': guard_line, 'effect line': effects.get(name, (None,))[0]})
